@@ -184,7 +184,9 @@ def dom_dim(d):
 
 def gen_step(rng, U):
     k = rng.choice(['tgrad', 'tgrad', 'tvec', 'form', 'logical', 'symbolic', 'idxder', 'hodge', 'union', 'join', 'comm',
-                    'equation', 'mapped', 'chain', 'chain', 'amap', 'intsum', 'iface', 'joinlow', 'symprod'])
+                    'equation', 'mapped', 'chain', 'chain', 'amap', 'intsum', 'iface', 'joinlow', 'symprod', 'mpatch'])
+    if k == 'mpatch':
+        return gen_mpatch(rng, U)
     if k == 'joinlow':
         return gen_joinlow(rng, U)
     if k == 'symprod':
@@ -331,6 +333,45 @@ def gen_symprod(rng, U):
                                   'fn': rng.choice(POOLS['function']), 'pair': pair}}
 
 
+MP_NAMES = ['A', 'B', 'C', 'P0', 'P1', 'Q', 'a', 'Z_2', 'Omega_1', 'Omega_2']
+
+
+def gen_mpatch(rng, U, n=None):
+    """a multi-patch domain built directly with Domain(name, interiors=[...], boundaries=[...]): 1-4 n-cube patches of
+    pairwise different bounds (sometimes one undefined InteriorDomain among them), listed in random - in general not
+    sorted - order of their names; all faces or a subset of them as boundaries, in patch order or reversed"""
+    dim = U.pick('mpdim', 0, lambda: rng.choice([1, 2, 2, 3]))
+    dname = rng.choice(POOLS['domain'])
+
+    def bounds():
+        bs = []
+        for _ in range(dim):
+            lo = rng.choice([0, 1, 2, -1, 0.5, 3])
+            bs.append([lo, lo + rng.choice([1, 2, 0.5, 4])])
+        return bs
+
+    def gen():
+        k = n or rng.choice([1, 2, 2, 3, 3, 4])
+        cells, seen = [], set()
+        for nm in rng.sample(MP_NAMES, k):
+            for _ in range(20):
+                bs = U.pick('cell', nm, bounds)
+                if json.dumps(bs) not in seen or U.consistent or rng.random() < 0.1:   # now and then two patches with the same bounds
+                    break
+            seen.add(json.dumps(bs))
+            cells.append([nm, bs])
+        p = {'name': dname, 'cells': cells, 'pdim': dim}
+        if k >= 2 and not U.consistent and rng.random() < 0.15:
+            cells[rng.randrange(k)][1] = None                        # an undefined interior (dtype None)
+        if rng.random() < 0.3:
+            p['faces'] = rng.sample(range(2 * dim), rng.randint(1, 2 * dim))
+        if rng.random() < 0.3:
+            p['brev'] = True
+        return p
+    p = U.pick('mpatch', dname, gen)
+    return {'r': 'mpatch', 'p': p}
+
+
 def gen_intsum(rng, U):
     """a sum of 2 or 3 integrals over pairwise different regions (0 = the interior, k = the k-th face)"""
     d = U.dom(shape='cube', dims=(2, 3))
@@ -362,6 +403,8 @@ def perturb(rng, step):
             opts = ['mparams', 'mparams', 'mparams', 'lo', 'kind']
         if 'dim' in p:
             opts.append('pdim')
+        if st['r'] == 'mpatch':
+            opts = ['cellbounds', 'cellswap'] if len(p['cells']) > 1 else ['cellbounds']
         if not opts:
             return st
         o = rng.choice(opts)
@@ -387,6 +430,16 @@ def perturb(rng, step):
                 p['params']['rmax'] = p['params']['rmin'] + 2
             if p['mcls'] == 'AffineMapping' and p['params']['a11'] * p['params']['a22'] == p['params']['a12'] * p['params']['a21']:
                 p['params']['a22'] += 1
+        elif o == 'cellbounds':
+            # the same patch names, other bounds for one of them
+            c = rng.choice([c for c in p['cells'] if c[1] is not None] or [None])
+            if c is not None:
+                ax = rng.randrange(len(c[1]))
+                c[1][ax] = [c[1][ax][0] + rng.choice([1, 2, 7]), c[1][ax][1] + rng.choice([7, 8])]
+        elif o == 'cellswap':
+            # the same patch names and the same bounds, attached to each other's name
+            i, j = rng.sample(range(len(p['cells'])), 2)
+            p['cells'][i][1], p['cells'][j][1] = p['cells'][j][1], p['cells'][i][1]
         elif o == 'k':
             p['k'] = rng.choice([x for x in range(p['n'] + 1) if x != p['k']] or [p['k']])
         elif o == 'n':
@@ -422,6 +475,9 @@ def rename(step, classes, suffix):
         p['names'] = [n + suffix for n in p['names']]
         if st.get('r') in ('iface', 'joinlow'):
             p['name'] += suffix
+    if 'cells' in p and 'domain' in classes:
+        p['cells'] = [[c[0] + suffix, c[1]] for c in p['cells']]
+        p['name'] += suffix
     if 'maps' in p and 'mapping' in classes:
         p['maps'] = [m + suffix for m in p['maps']]
     if 'space' in classes:
@@ -456,7 +512,10 @@ def with_clears(rng, hist):
 
 
 ORDERED = {'union': lambda p: len(p['names']), 'join': lambda p: len(p['conns']), 'comm': lambda p: 2,
-           'form': lambda p: 2 + len(p.get('bnd') or []), 'intsum': lambda p: len(p['regions']), 'symprod': lambda p: 2}
+           'form': lambda p: 2 + len(p.get('bnd') or []), 'intsum': lambda p: len(p['regions']), 'symprod': lambda p: 2,
+           'mpatch': lambda p: len(p['cells'])}
+WHAT = {'intsum': 'the sum of integrals over different regions', 'symprod': 'the symmetric product',
+        'mpatch': 'the multi-patch domain built from its interiors and boundaries'}
 
 
 # --------------------------------------------------------------------------- correspondence: the memo model
@@ -545,6 +604,10 @@ def named(st):
         out['domain'][p['name']] = ('joined', json.dumps(p['patches']), json.dumps(p['conns']))
     for n in p.get('names', []):
         out['domain'][n] = ('interior', p['dim'])
+    for c in p.get('cells', []):
+        out['domain'][c[0]] = ('cell', p['pdim'], json.dumps(c[1]))
+    if 'cells' in p:
+        out['domain'][p['name']] = ('patches', json.dumps(sorted(p['cells'], key=lambda c: c[0])))
     ctx = json.dumps(p.get('dom'))
     if isinstance(p.get('sp'), list):
         out['space'][p['sp'][1]] = (p['sp'][0], p['sp'][2], ctx)
@@ -592,6 +655,11 @@ def check_case(o, farm, hist, final, mode, rng, clears=True, label=None):
     o.count('final:' + final['r'])
     if ref_out.get('mut'):
         o.fail('mutates-input:%s' % final['r'], 'computing %s alters its inputs: %s' % (fs, ref_out['mut']), step=fs)
+    if ref_out.get('bad'):
+        # the recipe's own ground truth (its table of what it built, the same computation in the reference order)
+        o.fail('inconsistent:%s' % (label or fs), 'in a fresh interpreter the result of %s is not consistent with its inputs: %s'
+               % (fs, ref_out['bad']), step=fs)
+        return
     # the final computation alone: other hash seeds, cache off
     servers = farm.subset(rng, farm.per_case, farm.off_p)
     alone = farm.map(servers[1:], [final])
@@ -660,9 +728,13 @@ def check_order(o, farm, st, rng):
     ref_out = sv0.ask([base])[0]
     ref = view(ref_out)
     if ref_out.get('bad'):
+        if st['r'] == 'mpatch':
+            o.fail('order:mpatch:%s:supplied' % json.dumps(st['p'], sort_keys=True),
+                   '%s is not consistent with the patches as they were supplied: %s' % (WHAT['mpatch'], ref_out['bad']), step=step_str(base))
+            return
         o.fail('order:%s:%s:assoc' % (st['r'], json.dumps(st['p'], sort_keys=True)),
                '%s depends on the order / association of its operands (%%s-nested vs left-nested / swapped, same '
-               'supplied order): %%s' % ('the sum of integrals over different regions' if st['r'] == 'intsum' else 'the symmetric product') % (base['p'].get('shape', 'left'), ref_out['bad']), step=step_str(base))
+               'supplied order): %%s' % WHAT[st['r']] % (base['p'].get('shape', 'left'), ref_out['bad']), step=step_str(base))
         return
     for _ in range(2):
         perm = list(range(n))
@@ -679,7 +751,7 @@ def check_order(o, farm, st, rng):
             if out.get('bad'):
                 o.fail('order:%s:%s:%s' % (st['r'], json.dumps(st['p'], sort_keys=True), perm),
                        '%s depends on the order / association of its operands (order %%s, %%s-nested, '
-                       'compared in one interpreter with the reference order %%s): %%s' % ('the sum of integrals over different regions' if st['r'] == 'intsum' else 'the symmetric product')
+                       'compared in one interpreter with the reference order %%s): %%s' % WHAT[st['r']]
                        % (perm, var['p'].get('shape', 'left'), list(range(n)), out['bad']), step=step_str(var))
                 return
             if out.get('mut'):
@@ -704,6 +776,15 @@ FIXED_ORDER += [
     {'r': 'symprod', 'p': {'dom': ['cube', 'Omega', 2, 0], 'sp': 'V', 'fn': 'u', 'pair': 'gg_lap'}},
     {'r': 'symprod', 'p': {'dom': ['cube', 'Omega', 3, 0], 'sp': 'V', 'fn': 'u', 'pair': 'cc'}},
     {'r': 'symprod', 'p': {'dom': ['cube', 'Omega', 3, 0], 'sp': 'V', 'fn': 'u', 'pair': 'inner_gg'}},
+]
+_SQ = lambda lo1, hi1, hi2: [[lo1, hi1], [0, hi2]]
+FIXED_ORDER += [
+    # multi-patch domains built directly from interiors + boundaries, patches of different bounds listed in an order
+    # that is not the sorted one (seed C12-8): dtype / todict / export must follow the patches of Domain.interior
+    {'r': 'mpatch', 'p': {'name': 'D', 'pdim': 2, 'cells': [['C', _SQ(3, 7, 5)], ['A', _SQ(0, 1, 1)], ['B', _SQ(1, 3, 2)]]}},
+    {'r': 'mpatch', 'p': {'name': 'Omega', 'pdim': 1, 'cells': [['P1', [[2, 5]]], ['P0', [[0, 1]]]], 'brev': True}},
+    {'r': 'mpatch', 'p': {'name': 'Omega', 'pdim': 3, 'cells': [['Q', [[0, 1], [0, 1], [0, 2]]], ['B', [[1, 3], [0, 1], [0, 1]]],
+                                                              ['A', None]], 'faces': [0, 3]}},
 ]
 FIXED_SHARED = [
     # Domain.join on two symbolic-mapped patches before a lowering on the plus-side patch (seed C12-5)
@@ -746,6 +827,9 @@ FIXED = [
     ('mutates-input:equation', [], {'r': 'equation', 'p': {'dom': ['cube', 'A', 2, 0], 'sp': 'V', 'fn': 'u'}}, 'same'),
     ('mutates-input:equation', [{'r': 'equation', 'p': {'dom': ['cube', 'A', 2, 0], 'sp': 'V', 'fn': 'u', 'single': True}}],
      {'r': 'idxder', 'p': {'dom': ['abs', 'Omega', 2], 'sp': ['S', 'V', None], 'fn': 'u'}}, 'same'),
+    # seed C12-8: the same patch names with each other's bounds before, non-sorted supply (label = stable key)
+    ('inconsistent:mpatch-unsorted', [{'r': 'mpatch', 'p': {'name': 'D', 'pdim': 2, 'cells': [['A', _SQ(1, 3, 2)], ['B', _SQ(0, 1, 1)]]}}],
+     {'r': 'mpatch', 'p': {'name': 'D', 'pdim': 2, 'cells': [['B', _SQ(1, 3, 2)], ['A', _SQ(0, 1, 1)]]}}, 'reuse'),
     ('history-leak', [{'r': 'idxmut', 'p': {'dom': ['abs', 'Omega', 2], 'sp': ['S', 'V', None], 'fn': 'u'}}],
      {'r': 'idxder', 'p': {'dom': ['abs', 'Omega', 2], 'sp': ['S', 'V', None], 'fn': 'u'}}, 'same'),
 ]
@@ -764,7 +848,8 @@ def oracle(ctx, factor, seeds):
         for key, hist, final, mode in FIXED:
             o.evaluations += 1
             check_case(o, farm, hist, final, mode, rng, clears=False,
-                       label=key.split(':', 2)[2] if key.startswith('config:seed:') else None)
+                       label=key.split(':', 2)[2] if key.startswith('config:seed:') else
+                       (key.split(':', 1)[1] if key.startswith('inconsistent:') else None))
         ncase = (900 if ctx.thorough else 50) * factor
         for i in range(ncase):
             mode = rng.choice(['hygienic', 'same', 'same', 'reuse', 'reuse'])
@@ -794,7 +879,8 @@ def oracle(ctx, factor, seeds):
         U = Universe(rng, consistent=False)
         k = 0
         while k < nord:
-            st = gen_intsum(rng, U) if k % 4 == 0 else (gen_symprod(rng, U) if k % 4 == 1 else gen_step(rng, U))
+            st = gen_intsum(rng, U) if k % 4 == 0 else (gen_symprod(rng, U) if k % 4 == 1 else
+                                                        (gen_mpatch(rng, U, n=rng.choice([2, 3, 3, 4])) if k % 8 == 2 else gen_step(rng, U)))
             if st['r'] in ORDERED:
                 o.evaluations += 1
                 check_order(o, farm, st, rng)
